@@ -1344,3 +1344,19 @@ def _tag_text_decoded(repo, ob, failure):
 GENERATORS.insert(0, ("C19.tag_text", _tag_text_decoded))
 GENERATORS.insert(0, ("C02.tag_text", _tag_text_decoded))
 GENERATORS.insert(0, ("C03.tag_text", _tag_text_decoded))
+
+
+def _text_specific_attrs(repo, ob, failure):
+    """text-lsp / text-style never reach the output, whatever element carries the text"""
+    docs = ['<svg><text xy="0" text-lsp="2" text-style="fill:red" text="a\\nb"/></svg>',
+            '<svg><text xy="0" text-style="fill:red">a</text></svg>',
+            '<svg><rect wh="20" text-lsp="2" text-style="fill:red" text="a\\nb"/></svg>']
+    for doc in docs:
+        r = run_svgdx(repo, doc, args=("--no-auto-styles",))
+        if r["rc"] == 0 and ("text-lsp=" in r["out"] or "text-style=" in r["out"]):
+            return {"input": doc, "args": ["--no-auto-styles"], "observed": r["out"].strip()[-250:], "expected": "no text-lsp / text-style attribute in the output (text-style becomes style of the <text>)"}
+    return None
+
+
+GENERATORS.insert(0, ("C19.attrs.text_specific", _text_specific_attrs))
+GENERATORS.insert(0, ("C19.attrs.moved_lsp", _text_specific_attrs))
